@@ -20,10 +20,10 @@ for line in out.splitlines():
             rows_m.append((name[8:], why.get(name, ""), caught if status == "ok" else "**MISSED**"))
     if line.startswith("CROSS"):
         cross.append(line)
-md = ["### 11. Own mutants (mutants/defs.py) — check and clauses that catch each, quick tier\n",
+md = ["## 11. Own mutants (mutants/defs.py) — check and clauses that catch each, quick tier\n",
       "| mutant | what it changes | caught by (check[clauses]) |", "|---|---|---|"]
 md += [f"| `{n}` | {w} | {c} |" for n, w, c in rows_m]
-md += ["", "### 12. Independently seeded changes (seeded/*/) — quick tier\n",
+md += ["", "## 12. Independently seeded changes (seeded/*/) — quick tier\n",
        "| change | property | round | what it needs to manifest | caught by (check[clauses]) |", "|---|---|---|---|---|"]
 md += [f"| `{n}` | {p} | {r} | {w} | {c} |" for n, p, r, w, c in rows_s]
 md += ["", f"Cross-property alarms (a check other than the broken property's raising an alarm): {len(cross)}" + ("" if not cross else "\n\n```\n" + "\n".join(cross) + "\n```"),
